@@ -1216,7 +1216,13 @@ func (r *rpcPlanningContext) buildMessageForField(config buildFieldMessageConfig
 				return nil, err
 			}
 
-			message.FragmentFields[fragmentSelection.typeName] = fields
+			// Several inline fragments may carry the same type condition:
+			// their fields add up instead of the last fragment winning.
+			if existing, ok := message.FragmentFields[fragmentSelection.typeName]; ok {
+				message.FragmentFields[fragmentSelection.typeName] = append(existing, fields...)
+			} else {
+				message.FragmentFields[fragmentSelection.typeName] = fields
+			}
 		}
 	}
 
